@@ -74,15 +74,39 @@ class Ctx:
   def pmap(self, fname, args, chunksize=1):
     """Runs props.<id>.<fname>(arg) for every arg in worker processes; yields results in order."""
     args = list(args)
-    if self.workers <= 1 or len(args) <= 1:
+    if self.workers <= 1 or not args:
       m = importlib.import_module(self._modname)
       for a in args:
         yield getattr(m, fname)(a)
       return
+    import concurrent.futures as cf
     futs = [self.pool().submit(_call, self._modname, fname, a) for a in args]
+    # catch-all for code under test that never returns: if no task at all finishes for `stall` seconds the run is
+    # reported as a violation (naming the tasks in flight) instead of hanging for ever
+    stall = float(os.environ.get('VERIF_TASK_TIMEOUT_S', '0')) or max(900.0, 4 * self.budget_s)
+    pending = set(futs)
     try:
-      for f in futs:
-        yield f.result()
+      i = 0
+      while i < len(futs):
+        if futs[i].done():
+          yield futs[i].result()
+          i += 1
+          continue
+        done, _ = cf.wait(pending, timeout=stall, return_when=cf.FIRST_COMPLETED)
+        if not done:
+          running = [repr(a)[:300] for a, f in zip(args, futs) if f.running()]
+          self.violation('%s|does-not-terminate|%s' % (self.pid, fname),
+                         '%s: no task finished within %.0f s; in flight: %s' % (fname, stall, running[:4]), {'fname': fname, 'in_flight': running[:16]})
+          procs = list(getattr(self._pool, '_processes', {}).values())
+          self._pool.shutdown(wait=False, cancel_futures=True)
+          for pr in procs:
+            try:
+              pr.kill()
+            except Exception:  # pylint: disable=broad-except
+              pass
+          self._pool = None
+          return
+        pending -= done
     finally:
       for f in futs:
         f.cancel()
